@@ -14,6 +14,7 @@ from deepali.losses import flow as MF
 from deepali.losses import bspline as MB
 
 torch.set_default_dtype(torch.float64)
+torch.set_num_threads(1)
 
 MODES = {"fcb": "forward_central_backward", "sobel": "sobel", "prewitt": "prewitt"}
 LOSSES = {"bending": L.bending_loss, "curvature": L.curvature_loss, "diffusion": L.diffusion_loss,
